@@ -591,6 +591,12 @@ def _check_edge_overlap(begin: sc.Variable, end: sc.Variable) -> None:
     begin, end = edges['edge', 0], edges['edge', 1]
     if sc.any(begin[1:] <= end[:-1]):
         raise ValueError('The chopper has overlapping slits.')
+    # A slit with end > 360 deg spans top-dead-center and must not reach
+    # into the first slit on the disk.
+    if len(begin) > 1:
+        full_turn = sc.scalar(360.0, unit='deg').to(unit=end.unit)
+        if sc.any(end[1:] - full_turn >= begin[0]):
+            raise ValueError('The chopper has overlapping slits.')
 
 
 def _broadcast_slit_height(
